@@ -160,8 +160,9 @@ theorem coll_update_ok (cfg : Cfg M K R) (h : EqRefl cfg.ops) (s : CState M R) (
         let st2 := (updSave cfg wr c1 new).st
         ({ val := some new, err := none,
            events := [{ id := c1.id, time := (updateTimeC cfg wr st2).1,
-                        kind := if (old.isNone || c1.created.isSome) then .add else .update,
-                        old := if (old.isNone || c1.created.isSome) then none else old, new := some new }],
+                        kind := if (old.isNone || (c1.created.isSome && !c1.createdMeanwhile)) then .add else .update,
+                        old := if (old.isNone || (c1.created.isSome && !c1.createdMeanwhile)) then none else old,
+                        new := some new }],
            idCalls := c1.idCalls, createdCalls := c1.createdCalls }, (updateTimeC cfg wr st2).2) := by
   unfold Coll.update
   simp only [hv, gau_ok cfg.ops h _ _ _ _ _ _ h1 h2, changeFn_eq]
